@@ -180,6 +180,24 @@ fn doc_of(case: &Value) -> Value {
     doc
 }
 
+/// do the string entry points classify the string as `parse_json_path` does, whatever the document?
+fn parseep_case(line: &str) -> String {
+    let a = unesc(line);
+    match std::panic::catch_unwind(|| {
+        let acc = parse_json_path(&a).is_ok();
+        let docs = [serde_json::json!(null), serde_json::json!(42), serde_json::json!("s"), serde_json::json!([]), serde_json::json!({}), serde_json::json!([1]), serde_json::json!({"a": 1})];
+        let mut agree = true;
+        for d in docs.iter() {
+            if d.query(&a).is_ok() != acc || d.query_with_path(&a).is_ok() != acc || d.query_only_path(&a).is_ok() != acc
+                || jsonpath_rust::query::js_path(&a, d).is_ok() != acc || jsonpath_rust::query::js_path_vals(&a, d).is_ok() != acc || jsonpath_rust::query::js_path_path(&a, d).is_ok() != acc { agree = false; }
+        }
+        (acc, agree)
+    }) {
+        Ok((acc, agree)) => format!("{{\"{}\":1,\"ep\":{}}}", if acc { "ok" } else { "err" }, agree),
+        Err(_) => "{\"panic\":1}".to_string(),
+    }
+}
+
 fn eval_case(line: &str) -> String {
     let case: Value = match serde_json::from_str(line) { Ok(v) => v, Err(e) => return format!("{{\"badjson\":\"{}\"}}", e) };
     let q = case["q"].as_str().unwrap_or("").to_string();
@@ -193,6 +211,9 @@ fn eval_case(line: &str) -> String {
             Ok(rs) => {
                 let n = rs.len();
                 let mut agree = true;
+                // finer: do `query` / `query_only_path` return the same nodes / paths as multisets (order aside)?
+                let mut same_nodes = true;
+                let mut same_paths = true;
                 match (&only_vals, &only_paths) {
                     (Ok(vs), Ok(ps)) => {
                         if vs.len() != n || ps.len() != n { agree = false; }
@@ -203,9 +224,23 @@ fn eval_case(line: &str) -> String {
                                 if !std::ptr::eq(v, vs[i]) || p != ps[i] { agree = false; }
                             }
                         }
+                        let mut a1: Vec<usize> = rs.iter().map(|r| r.clone().val() as *const Value as usize).collect();
+                        let mut a2: Vec<usize> = vs.iter().map(|v| *v as *const Value as usize).collect();
+                        a1.sort(); a2.sort(); same_nodes = a1 == a2;
+                        let mut p1: Vec<String> = rs.iter().map(|r| r.clone().path()).collect();
+                        let mut p2: Vec<String> = ps.clone();
+                        p1.sort(); p2.sort(); same_paths = p1 == p2;
                     }
-                    _ => agree = false,
+                    _ => { agree = false; same_nodes = false; same_paths = false; }
                 }
+                // a query parsed once and evaluated through js_path_process must give what the string entry point gives
+                let parsed_once = match parse_json_path(&q) {
+                    Ok(jq) => match js_path_process(&jq, &doc) {
+                        Ok(again) => again.len() == n && again.iter().zip(rs.iter()).all(|(x, y)| std::ptr::eq(x.clone().val(), y.clone().val()) && x.clone().path() == y.clone().path()),
+                        Err(_) => false,
+                    },
+                    Err(_) => false,
+                };
                 let items: Vec<String> = rs.into_iter().map(|r| {
                     let path = r.clone().path();
                     let val = r.val();
@@ -220,9 +255,9 @@ fn eval_case(line: &str) -> String {
                     let rf = doc.reference(path.clone()).map_or(false, |n| std::ptr::eq(n, val));
                     format!("{{\"p\":{},\"l\":{},\"v\":{},\"rq\":{},\"rf\":{}}}", cps(&path), if found { format!("[{}]", acc.join(",")) } else { "\"NOTFOUND\"".into() }, canon(val), rq, rf)
                 }).collect();
-                format!("{{\"ok\":[{}],\"entrypoints_agree\":{}}}", items.join(","), agree)
+                format!("{{\"ok\":[{}],\"entrypoints_agree\":{},\"ep_same_nodes\":{},\"ep_same_paths\":{},\"parsed_once_agrees\":{}}}", items.join(","), agree, same_nodes, same_paths, parsed_once)
             }
-            Err(_) => format!("{{\"err\":1,\"entrypoints_agree\":{}}}", only_vals.is_err() && only_paths.is_err()),
+            Err(_) => format!("{{\"err\":1,\"entrypoints_agree\":{},\"parsed_once_agrees\":{}}}", only_vals.is_err() && only_paths.is_err(), parse_json_path(&q).is_err()),
         }
     });
     let unchanged = doc == before;
@@ -365,6 +400,15 @@ impl<const V: bool> From<i64> for AltG<V> { fn from(i: i64) -> Self { AltG::Int(
 impl<const V: bool> From<f64> for AltG<V> { fn from(f: f64) -> Self { if f.is_finite() { AltG::Float(f) } else { AltG::Null } } }
 impl<const V: bool> From<Vec<AltG<V>>> for AltG<V> { fn from(v: Vec<AltG<V>>) -> Self { AltG::Arr(v) } }
 impl<const V: bool> AltG<V> {
+    /// the same document with the members of every object kept in REVERSE name order: member order is part of the view
+    /// (`as_object`), so the results over this document are the RFC results on the reordered document
+    fn of_rev(v: &Value) -> AltG<V> {
+        match v {
+            Value::Array(a) => AltG::Arr(a.iter().map(AltG::<V>::of_rev).collect()),
+            Value::Object(o) => AltG::Obj(o.iter().rev().map(|(k, v)| (k.clone(), AltG::<V>::of_rev(v))).collect()),
+            other => AltG::<V>::of(other),
+        }
+    }
     fn of(v: &Value) -> AltG<V> {
         match v {
             Value::Null => AltG::Null,
@@ -430,7 +474,7 @@ type Alt2 = AltG<true>;
 fn generic_case<const V: bool>(line: &str) -> String {
     let case: Value = match serde_json::from_str(line) { Ok(v) => v, Err(e) => return format!("{{\"badjson\":\"{}\"}}", e) };
     let q = case["q"].as_str().unwrap_or("").to_string();
-    let doc = AltG::<V>::of(&doc_of(&case));
+    let doc = if case["rev"].as_bool() == Some(true) { AltG::<V>::of_rev(&doc_of(&case)) } else { AltG::<V>::of(&doc_of(&case)) };
     match std::panic::catch_unwind(|| {
         match jsonpath_rust::query::js_path(&q, &doc) {
             Ok(rs) => format!("{{\"ok\":[{}]}}", rs.into_iter().map(|r| { let p = r.clone().path(); let v = r.val(); format!("{{\"p\":{},\"v\":{}}}", cps(&p), canon(&v.back())) }).collect::<Vec<_>>().join(",")),
@@ -580,6 +624,7 @@ fn main() {
         let res = match mode.as_str() {
             "eval" => eval_case(&line),
             "run" => run_case(&line),
+            "parseep" => parseep_case(&line),
             "regex" => regex_case(&line),
             "ref" => ref_case(&line),
             "refseq" => refseq_case(&line),
